@@ -10,6 +10,7 @@
 (* The trace file (environment variable TRACE, ND-JSON) holds many         *)
 (* grammars one after the other; each starts with a "grammar" event.       *)
 (*   grammar  g                          reset; Builder starts             *)
+(*   first_pass changed sets             one pass of FirstSets!RunPass     *)
 (*   first    sets: [n, ts, eps]         FIRST/nullable as computed by     *)
 (*                                       the code = Cfg!First/Nullable     *)
 (*   pop      i                          Builder!Pop                       *)
@@ -26,12 +27,14 @@
 (*   table    t                          TableFill!FillDone; t = the table *)
 (*   conflict state items                the reported TableConflict payload*)
 (***************************************************************************)
-EXTENDS Builder, TableFill, Json, IOUtils
+EXTENDS Builder, TableFill, FirstSets, Json, IOUtils
 
 Rec == ndJsonDeserialize(IOEnv.TRACE)
 
-VARIABLE l
-allvars == <<bvars, tvars, l>>
+VARIABLES l,
+          fm,       \* FIRST map after the passes seen so far (FirstSets.tla's fmap)
+          flast     \* did the last pass seen change anything
+allvars == <<bvars, tvars, fvars, l, fm, flast>>
 
 ItemOfT(t) == Item(t[1], t[2], t[3])
 GrammarOfT(r) == [nts |-> SeqRange(r.nts), ts |-> SeqRange(r.ts), start |-> r.start, rules |-> r.rules]
@@ -52,21 +55,37 @@ TFIdle1 ==
   /\ spos' = 0 /\ rem' = {} /\ cells' = Empty /\ gotos' = Empty /\ conflict' = NoConflict
   /\ tabA' = Empty /\ tabG' = Empty /\ wrA' = {} /\ wrG' = {} /\ tls' = {}
 
+FDummy == fg = NoGrammar /\ fmap = <<>> /\ frule = 0 /\ fchanged = FALSE /\ fpasses = 0 /\ fdone = FALSE
 TInit ==
-  /\ l = 1 /\ TLCSet(1, 1)
+  /\ l = 1 /\ TLCSet(1, 1) /\ FDummy /\ fm = <<>> /\ flast = TRUE
   /\ g = NoGrammar /\ ph = "idle" /\ ctx = NoCtx /\ states = <<>> /\ trans = {} /\ queue = <<>> /\ cur = -1 /\ pending = {}
   /\ TFIdle
 
 \* a new case: whatever state the previous one ended in, start over with this grammar
+SetsAsMap(sets) == [n \in { sets[k].n : k \in DOMAIN sets } |->
+                       LET e == sets[CHOOSE k \in DOMAIN sets : sets[k].n = n] IN [ts |-> SeqRange(e.ts), eps |-> e.eps]]
+\* one pass of the real iteration is one pass of FirstSets.tla: same resulting map, same "changed" verdict
+TFirstPass ==
+  /\ IsEvent("first_pass") /\ ph = "start"
+  /\ LET pr == RunPass(g, fm) IN
+       /\ pr.changed = Rec[l].changed
+       /\ pr.map = SetsAsMap(Rec[l].sets)
+       /\ fm' = pr.map /\ flast' = pr.changed
+  /\ UNCHANGED <<bvars, tvars, fvars>>
+
 TGrammar ==
   /\ IsEvent("grammar")
   /\ g' = GrammarOfT(Rec[l].g) /\ ph' = "start"
   /\ ctx' = NoCtx /\ states' = <<>> /\ trans' = {} /\ queue' = <<>> /\ cur' = -1 /\ pending' = {}
+  /\ fm' = [n \in g'.nts |-> EmptyEntry] /\ flast' = TRUE /\ UNCHANGED fvars
   /\ TFIdle1
 
 \* the FIRST sets the code computed are the least fixed point of Cfg.tla
 TFirst ==
   /\ IsEvent("first")
+  /\ ~flast                     \* the iteration stopped after a pass that changed nothing
+  /\ fm = SetsAsMap(Rec[l].sets)
+  /\ UNCHANGED <<fvars, fm, flast>>
   /\ Start
   /\ LET sets == Rec[l].sets IN
        /\ { sets[k].n : k \in DOMAIN sets } = g.nts
@@ -75,6 +94,7 @@ TFirst ==
   /\ UNCHANGED tvars
 
 TPop ==
+  /\ UNCHANGED <<fvars, fm, flast>>
   /\ IsEvent("pop")
   /\ \E k \in DOMAIN queue :
         /\ queue[k] = Rec[l].i
@@ -83,6 +103,7 @@ TPop ==
   /\ UNCHANGED tvars
 
 TTarget ==
+  /\ UNCHANGED <<fvars, fm, flast>>
   /\ IsEvent("target")
   /\ LET r == Rec[l] IN
        /\ cur = r.from
@@ -96,6 +117,7 @@ TTarget ==
 
 \* the automaton handed to the table filler is a renumbering of what the builder built
 TMachine ==
+  /\ UNCHANGED <<fvars, fm, flast>>
   /\ IsEvent("machine")
   /\ Finish
   /\ LET M == MachineOfT(Rec[l].m)
@@ -107,6 +129,7 @@ TMachine ==
         /\ TFLoad(M)
 
 TScan ==
+  /\ UNCHANGED <<fvars, fm, flast>>
   /\ IsEvent("scan")
   /\ Rec[l].state = spos
   /\ ScanItem(ItemOfT(Rec[l].item))
@@ -115,6 +138,7 @@ TScan ==
 \* set_action(state, qt, act) was called for the item just scanned: it is what the spec says the item wants,
 \* and the outcome (0 new, 1 same action present, 2 conflict) is the one the spec reached
 TSetAction ==
+  /\ UNCHANGED <<fvars, fm, flast>>
   /\ IsEvent("set_action")
   /\ l > 1 /\ Rec[l - 1].ev = "scan"
   /\ LET r == Rec[l] it == ItemOfT(Rec[l - 1].item) key == <<r.state, r.qt>> IN
@@ -126,17 +150,21 @@ TSetAction ==
   /\ UNCHANGED <<bvars, tvars>>
 
 TFill ==
+  /\ UNCHANGED <<fvars, fm, flast>>
   /\ IsEvent("fill")
   /\ FillAction(<<Rec[l].state, Rec[l].qt>>)
   /\ UNCHANGED bvars
 TGotos ==   \* add_gotos_to_table has no event of its own: it happens before the first fill / the table event
+  /\ UNCHANGED <<fvars, fm, flast>>
   /\ l <= Len(Rec) /\ Rec[l].ev \in {"fill", "gfill", "table"} /\ phase = "gotos"
   /\ AddGotos /\ UNCHANGED <<bvars, l>>
 TGFill ==
+  /\ UNCHANGED <<fvars, fm, flast>>
   /\ IsEvent("gfill")
   /\ FillGoto(<<Rec[l].state, Rec[l].nt>>)
   /\ UNCHANGED bvars
 TTable ==
+  /\ UNCHANGED <<fvars, fm, flast>>
   /\ IsEvent("table")
   /\ FillDone
   /\ LET t == Rec[l].t qts == t.ts \o <<EOFSYM>> IN
@@ -148,13 +176,14 @@ TTable ==
             /\ \A k \in DOMAIN t.nts : t.goto[s][k] = tabG[<<s - 1, t.nts[k]>>]
   /\ UNCHANGED bvars
 TConflict ==
+  /\ UNCHANGED <<fvars, fm, flast>>
   /\ IsEvent("conflict")
   /\ phase = "conflict"
   /\ conflict.state = Rec[l].state
   /\ conflict.items = << ItemOfT(Rec[l].items[1]), ItemOfT(Rec[l].items[2]) >>
   /\ UNCHANGED <<bvars, tvars>>
 
-TNext == TGrammar \/ TFirst \/ TPop \/ TTarget \/ TMachine \/ TScan \/ TSetAction
+TNext == TGrammar \/ TFirstPass \/ TFirst \/ TPop \/ TTarget \/ TMachine \/ TScan \/ TSetAction
          \/ TGotos \/ TFill \/ TGFill \/ TTable \/ TConflict
 TSpec == TInit /\ [][TNext]_allvars
 
